@@ -91,6 +91,7 @@ def gen_requests(r, tier):
 class C07(Prop):
     id = "C07"
     lean_modules = ["Fan2go.Props.C07"]
+    fact_modules = ["Fan2go.Props.Trans"]
     rule = ("sweep: linear curves (min<max; non-decreasing step sets with integer, half-integer and one-decimal speeds) and "
             "sum/maximum/minimum/average function curves nested over them, evaluated on ascending temperature grids of 1..100 "
             "m-degree spanning below-min to above-max; request: ascending curve values through the real controller with the "
